@@ -20,7 +20,7 @@ class Profile:
     """What a property wants from the generator."""
 
     def __init__(self, name, nops=(3, 25), weights=None, allow=None, cfg_bias=None, cfg_fn=None,
-                 maxdepth=7, restarts=(0, 2), final_restart=True, zero_bias=0.0, sizes=None, post_gen=None):
+                 maxdepth=11, restarts=(0, 2), final_restart=True, zero_bias=0.0, sizes=None, post_gen=None):
         self.name = name
         self.nops = nops
         self.weights = weights
